@@ -22,6 +22,10 @@ pub enum KsfSpec {
     Argon2 { m_kib: u32, t: u32, p: u32 },
     /// `argon2::Argon2::default()` through the crate's impl
     Argon2Default,
+    /// fully parameterised instance: algorithm (0 = Argon2d, 1 = Argon2i, 2 = Argon2id),
+    /// version (0x10 if `v10`, else 0x13), costs, and a secret ("pepper") selected from a
+    /// static table (0 = none)
+    Argon2Ex { alg: u8, v10: bool, m_kib: u32, t: u32, p: u32, secret: u8 },
     /// cheap salted hash family H_i (SHA-512 in counter mode over i || input)
     H(u8),
     /// behaves like `then`, except that it fails with `InternalError::KsfError`
@@ -51,8 +55,43 @@ impl KsfSpec {
                     p: p.p_cost(),
                 }
             }
+            KsfSpec::Argon2Ex { alg: 2, v10: false, m_kib, t, p, secret: 0 } => KsfSpec::Argon2 {
+                m_kib: *m_kib,
+                t: *t,
+                p: *p,
+            },
             s => s.clone(),
         }
+    }
+}
+
+const SECRETS: [&[u8]; 3] = [b"", b"pepper-one", b"another pepper"];
+
+/// the `argon2` crate instance a spec denotes (None for non-Argon2 specs)
+pub fn argon2_instance(spec: &KsfSpec) -> Option<argon2::Argon2<'static>> {
+    match spec {
+        KsfSpec::Argon2Default => Some(argon2::Argon2::default()),
+        KsfSpec::Argon2 { m_kib, t, p } => Some(argon2::Argon2::new(
+            argon2::Algorithm::Argon2id,
+            argon2::Version::V0x13,
+            argon2::Params::new(*m_kib, *t, *p, None).ok()?,
+        )),
+        KsfSpec::Argon2Ex { alg, v10, m_kib, t, p, secret } => {
+            let algorithm = match alg {
+                0 => argon2::Algorithm::Argon2d,
+                1 => argon2::Algorithm::Argon2i,
+                _ => argon2::Algorithm::Argon2id,
+            };
+            let version = if *v10 { argon2::Version::V0x10 } else { argon2::Version::V0x13 };
+            let params = argon2::Params::new(*m_kib, *t, *p, None).ok()?;
+            let sec = SECRETS[*secret as usize % SECRETS.len()];
+            if sec.is_empty() {
+                Some(argon2::Argon2::new(algorithm, version, params))
+            } else {
+                argon2::Argon2::new_with_secret(sec, algorithm, version, params).ok()
+            }
+        }
+        _ => None,
     }
 }
 
@@ -123,6 +162,9 @@ fn eval<L: ArrayLength<u8>>(
             a.hash(input)
         }
         KsfSpec::Argon2Default => argon2::Argon2::default().hash(input),
+        KsfSpec::Argon2Ex { .. } => argon2_instance(spec)
+            .expect("harness: generated Argon2 parameters must be valid")
+            .hash(input),
         KsfSpec::H(i) => {
             let mut out = GenericArray::<u8, L>::default();
             let mut ctr = 0u32;
@@ -204,11 +246,7 @@ impl KsfBuild for argon2::Argon2<'static> {
     fn build(_tag: u32, spec: &KsfSpec) -> Option<Self> {
         match spec {
             KsfSpec::Argon2Default => Some(argon2::Argon2::default()),
-            KsfSpec::Argon2 { m_kib, t, p } => Some(argon2::Argon2::new(
-                argon2::Algorithm::Argon2id,
-                argon2::Version::V0x13,
-                argon2::Params::new(*m_kib, *t, *p, None).ok()?,
-            )),
+            KsfSpec::Argon2 { .. } | KsfSpec::Argon2Ex { .. } => argon2_instance(spec),
             _ => None,
         }
     }
@@ -237,6 +275,11 @@ pub fn pure_stretch(spec: &KsfSpec, input: &[u8]) -> Option<Vec<u8>> {
             argon2::Argon2::default()
                 .hash_password_into(input, &[0u8; 16], &mut out)
                 .ok()?;
+            Some(out)
+        }
+        KsfSpec::Argon2Ex { .. } => {
+            let mut out = vec![0u8; input.len()];
+            argon2_instance(spec)?.hash_password_into(input, &[0u8; 16], &mut out).ok()?;
             Some(out)
         }
         KsfSpec::H(i) => {
